@@ -40,6 +40,11 @@ Definition encode_msg (buf:bytes) (typ:N) (txid:bytes) (l:list eattr) : res (byt
        | Err => Err | Panic => Panic
        end.
 
+(* "bytes beyond the returned size are left untouched": the harness compares buffer[n..] after a successful encode with
+   the same range of the pre-filled buffer (tail_same); nothing is required when encoding failed *)
+Definition monitor_C14_tail (observed:option (option N)) (tail_same:bool) : bool :=
+  match observed with Some (Some _) => tail_same | _ => true end.
+
 (* MessageType::as_u16 (message.rs:58-64): M11..M7 C1 M6..M4 C0 M3..M0 *)
 Definition msg_type_of (method class:N) : N :=
   N.lor (N.lor (N.lor (N.shiftl (N.land method 0xF80) 2) (N.shiftl (N.land method 0x70) 1)) (N.land method 0xF))
